@@ -29,9 +29,17 @@ class HippoLLSDBaseFormatter(base_llsd.base.LLSDBaseFormatter):
         self.type_map[Vector3] = self.TUPLECOORD
         self.type_map[Vector4] = self.TUPLECOORD
         self.type_map[Quaternion] = self.TUPLECOORD
+        self.type_map[datetime.datetime] = self.DATETIME
 
     def TUPLECOORD(self, v: TupleCoord):
         return self.ARRAY(v.data())
+
+    def DATETIME(self, v: datetime.datetime):
+        if v.tzinfo is not None:
+            # LLSD dates are UTC and the date formatters expect a naive datetime,
+            # isoformat() of an aware one would put "+HH:MM" in front of the "Z".
+            v = v.astimezone(datetime.timezone.utc).replace(tzinfo=None)
+        return self.DATE(v)
 
 
 class HippoLLSDXMLFormatter(base_llsd.serde_xml.LLSDXMLFormatter, HippoLLSDBaseFormatter):
